@@ -11,7 +11,7 @@ from harness.common import Prop
 class C08(Prop):
     id = "C08"
     prop_file = "Props/C08.v"
-    rule = ("histories of one set call: retries 0..3 x reports {stale (old value), confirming (requested value), third value, narrowed bounds} "
+    rule = ("histories of one set call: retries 0..3 x retry interval (5 s default, 0.3, 0.75, 2.2, 11 s) x reports {stale (old value), confirming (requested value), third value, narrowed bounds} "
             "placed before / between / after each timer expiry x version tracking on/off, for ecoMAX, mixer, thermostat, control and profile "
             "parameters; observed per point (the call, each event): set requests with their value, refresh requests, return value.  "
             "Non-trivial = at least one set request transmitted; distinct by (parameter, triple, request, retries, history, tracking).")
@@ -141,7 +141,9 @@ class C08(Prop):
             else:
                 events.append([1, [old, old, old]])
         return {"kind": kind, "tbl": tbl, "idx": idx, "triple": [old, lo_b, hi_b], "req": req, "retries": retries,
-                "tracking": tracking, "events": events, "sub": rng.choice([0, 1])}
+                "tracking": tracking, "events": events, "sub": rng.choice([0, 1]),
+                # the retry interval: the default and values that are no multiple of any convenient polling step
+                "timeout": rng.choice([5.0, 5.0, 0.3, 0.75, 2.2, 11.0])}
 
     def run_impl(self, c):
         if c["kind"] == "two-calls":
@@ -151,14 +153,14 @@ class C08(Prop):
             if "_payloads" not in c:
                 trs = [c["triple"]] + [ev[1] for ev in c["events"] if ev[0] in (1, 3)]
                 c["_payloads"] = [list(model.call("enc_ecomax_params", [c["b0"], c["idx"], [[tr]]])) for tr in trs]
-            outs, after, _ = vloop.run(param_impl.run_set_call_frames, c["tbl"], c["idx"], c["triple"], c["req"], c["retries"], 5.0,
+            outs, after, _ = vloop.run(param_impl.run_set_call_frames, c["tbl"], c["idx"], c["triple"], c["req"], c["retries"], c.get("timeout", 5.0),
                                        c["events"], c["tracking"], c["_payloads"], c["kind"] == "frames-hop")
             return [outs, after]
         if c["kind"] == "device-set":
-            outs, after, _ = vloop.run(param_impl.run_set_call, c["tbl"], c["idx"], c["triple"], c["shown"], c["retries"], 5.0,
+            outs, after, _ = vloop.run(param_impl.run_set_call, c["tbl"], c["idx"], c["triple"], c["shown"], c["retries"], c.get("timeout", 5.0),
                                        c["events"], c["tracking"], c["sub"], True)
             return [outs, after]
-        outs, after, _ = vloop.run(param_impl.run_set_call, c["tbl"], c["idx"], c["triple"], c["req"], c["retries"], 5.0,
+        outs, after, _ = vloop.run(param_impl.run_set_call, c["tbl"], c["idx"], c["triple"], c["req"], c["retries"], c.get("timeout", 5.0),
                                    c["events"], c["tracking"], c["sub"])
         return [outs, after]
 
